@@ -43,10 +43,11 @@ SHORTS = ["T", "Type_1"]
 VERSIONS = [[0, 1], [1, 0], [255, 255]]
 PORTS = [None, 6200]
 RF_DESIGNATIONS = ["abs-abs", "rel-rel", "rel-name", "rel-none", "symlink", "dotdot", "two-roots", "two-roots-reversed", "abs-name", "abs-rel", "rel-abs", "str-args",
-                   "abs-names-inner-first", "abs-names-outer-first", "rel-names-inner-first", "rel-names-outer-first", "abs-names-other-first"]
+                   "abs-names-inner-first", "abs-names-outer-first", "rel-names-inner-first", "rel-names-outer-first", "abs-names-other-first",
+                   "iter-args", "iter-args-rel", "map-str-args"]
 RN_DESIGNATIONS = ["abs", "rel", "symlink", "dotdot", "str"]
 CWDS = ["parent", "elsewhere", "grandparent"]
-MUST_SUCCEED = {("abs-abs", "parent"), ("rel-rel", "parent"), ("rel-name", "parent"), ("rel-none", "parent"), ("abs-abs", "elsewhere"), ("str-args", "parent"),
+MUST_SUCCEED = {("iter-args", "parent"), ("iter-args", "elsewhere"), ("iter-args-rel", "parent"), ("map-str-args", "parent"), ("abs-abs", "parent"), ("rel-rel", "parent"), ("rel-name", "parent"), ("rel-none", "parent"), ("abs-abs", "elsewhere"), ("str-args", "parent"),
                 # the first example of the read_files docstring: targets given relative to a working directory ABOVE the parent of
                 # the root ("workspace/project/types/animals/felines/Tabby.1.0.dsdl") with the roots as bare names or as relative paths
                 ("abs-abs", "grandparent"), ("rel-rel", "grandparent"), ("rel-name", "grandparent")}
@@ -95,6 +96,7 @@ NAMES = [
     "A.1e1.0.dsdl", "A.0x1.0.dsdl", "A.1.0x0.dsdl", "-6200.A.1.0.dsdl", "6_200.A.1.0.dsdl", "+6200.A.1.0.dsdl", " 6200.A.1.0.dsdl", "٦200.A.1.0.dsdl", "8192.A.1.0.dsdl", "8191.A.1.0.dsdl",
     "99999999999999999999.A.1.0.dsdl", "A.99999999999999999999.0.dsdl", "A B.1.0.dsdl", "a-b.1.0.dsdl", "9A.1.0.dsdl", "uint8.1.0.dsdl", "K.1.0.dsdl", "A.1.0.DSDL", "A.1.0.Dsdl", "A.1.0.dsdl.bak",
     "A.1.0..dsdl", "A..0.dsdl", "A.1..dsdl", "_.1.0.dsdl", "__.1.0.dsdl", "A.01.0.dsdl", "A.1.00.dsdl", "A.001.000.dsdl", "006200.A.1.0.dsdl", "A.1.0.uavcan.dsdl", ".A.1.0.dsdl", "6143.A.1.0.dsdl",
+    "Caf\u00e9.1.0.dsdl", "Speed\u0661.1.0.dsdl", "A\u00b2.1.0.dsdl", "x\u212a.1.0.dsdl", "Stra\u00dfe.1.0.dsdl", "T\u0435mp.1.0.dsdl", "A\uff11.1.0.dsdl", "A\n.1.0.dsdl", "A\u2028.1.0.dsdl",
     "0.A.1.0.dsdl", "A.1.0.dsdl ", "A.1.0. dsdl", "A.1.0.dsdl\n", "A\t.1.0.dsdl", "A.1.0x.dsdl", "A.1.0L.dsdl", "A.1.².dsdl", "A.௧.0.dsdl", "A.1.0.UAVCAN", "6200.6200.A.1.dsdl", "A.1.0.dsdl.dsdl",
 ]
 
@@ -140,6 +142,10 @@ def cases(shard, tier):
             if i % shard["parts"] == shard["part"]:
                 for sub in ([], ["sub"]):
                     yield {"kind": "name", "name": n, "ns": sub}
+        if shard["part"] == 0:
+            # namespace DIRECTORY names are names too
+            for d in ("gr\u00f6sse", "sub\u0661", "x\u212a", "sub\n", "s\u00b2", "Sub", "_s", "s1"):
+                yield {"kind": "name", "name": "A.1.0.dsdl", "ns": [d]}
 
 
 def identity(t: pydsdl.CompositeType, base: Path):
@@ -219,6 +225,12 @@ def check_layout(case, R: engine.Acc):
                         tg, roots = [f if d.startswith("abs") else relp(f)], names
                     elif d == "abs-names-other-first":
                         tg, roots = [f], [Path("other"), Path(ROOT)]
+                    elif d == "iter-args":  # one-shot iterables are legal values of an Iterable parameter
+                        tg, roots = iter([f]), (r for r in [root])
+                    elif d == "iter-args-rel":
+                        tg, roots = iter([relp(f)]), (r for r in [relp(root)])
+                    elif d == "map-str-args":
+                        tg, roots = map(str, [relp(f)]), map(str, [relp(root)])
                     else:
                         tg, roots = str(f), str(root)
                     res, _tr = pydsdl.read_files(tg, roots, [], allow_unregulated_fixed_port_id=True)
@@ -242,6 +254,22 @@ def check_layout(case, R: engine.Acc):
                 R.violation("documented-designation-raised:%s" % type(ex).__name__, "the documented ways of designating targets and roots work", case, observed=repr(ex)[:300])
             return
         got = [identity(t, base) for t in res]
+        # a caller that modifies the lists the accessors hand out does not change what the object IS
+        for t in res:
+            for acc in ("name_components", "attributes", "fields", "constants"):
+                try:
+                    v = getattr(t, acc)
+                except Exception:  # noqa (services have no fields)
+                    continue
+                if isinstance(v, list):
+                    v.reverse()
+                    v.append("intruder")
+                    if v:
+                        v.pop(0)
+        again = [identity(t, base) for t in res]
+        if again != got or [str(t) for t in res] != ["%s.%d.%d" % (g["full_name"], g["version"][0], g["version"][1]) for g in got]:
+            R.violation("identity-changes-with-caller-side-mutation", "name, version and paths of a type do not change when the caller modifies a list an accessor returned", case, observed=again, expected=got)
+            return
         if len(got) == 1 and got[0] == exp and isinstance(res[0], pydsdl.ServiceType):
             for part, suffix in ((res[0].request_type, "Request"), (res[0].response_type, "Response")):
                 pexp = dict(exp, full_name=exp["full_name"] + "." + suffix, port=None)
@@ -264,6 +292,8 @@ def check_layout(case, R: engine.Acc):
 def check_name(case, R: engine.Acc):
     name = case["name"]
     exp = expected_from_name(name)
+    if exp not in (None, "reject") and not all(NAME_OK.match(d) for d in case["ns"]):
+        exp = "reject"  # a namespace component that is not a plain ASCII identifier
     rel = "/".join([ROOT] + case["ns"] + [name])
     try:
         o = api.read_namespace_tree({rel: "@sealed\n"}, ROOT, allow_unregulated_fixed_port_id=True, with_paths=True)
